@@ -574,18 +574,24 @@ class Timing:
         val = ap.value[0]
         elem = ("elem", loop.id)
         PREV = ("ite", acc, ("sub", acc, ("const", -1)), ("const", None))
-        if val[0] == "call" and val[1][0] in ("func", "boundcls") :
-            fq = val[1][1]
-            fi = ctx.prog.functions.get(fq)
-            want = c.find_method("from_parsed_data")
-            if fi is None or want is None or fi.qual != want.qual:
-                fail(r, ctx, helper, ap.node, f"{c.name} data are built with {fq}, expected {want.qual if want else '?'}")
-                return
+        want = c.find_method("from_parsed_data")
+        # the builder call record (present whether or not the evaluator inlined the builder's body)
+        recs = [x for x in hs.calls if want is not None and x.fn[0] in ("func", "boundcls") and x.fn[1] == want.qual and x.loops == (loop.id,)]
+        if want is None or len(recs) != 1:
+            others = sorted({x.fn[1] for x in hs.calls if x.fn[0] in ("func", "boundcls") and x.fn[1].endswith(".from_parsed_data")})
+            fail(r, ctx, helper, ap.node, f"{c.name} data must be built by exactly one call of {want.qual if want else '?'} per datum; found "
+                                          f"{len(recs)} such call(s) (builders called: {others})")
+            return
+        rec = recs[0]
+        if strip(val) != strip(rec.result):
+            fail(r, ctx, helper, ap.node, f"the value appended for {c.name} is not the result of the builder call on this datum: {show(val)[:160]}")
+        if True:
+            fi = want
             result[c.qual] = fi
-            kw = dict(val[3])
+            kw = dict(rec.kwargs)
             fps = fi.params()
             if strip(kw.get(fps[1])) != elem:
-                fail(r, ctx, helper, ap.node, f"builder for {c.name} must receive the current datum; receives {show(kw.get(fps[1]))}")
+                fail(r, ctx, helper, ap.node, f"builder for {c.name} must receive the current datum as `{fps[1]}`; receives {show(kw.get(fps[1]))[:120]}")
             if len(fps) >= 4:
                 if strip(kw.get(fps[2])) != strip(PREV):
                     fail(r, ctx, helper, ap.node,
@@ -594,9 +600,6 @@ class Timing:
                 if strip(kw.get(fps[3])) != strip(third):
                     fail(r, ctx, helper, ap.node, f"third builder argument for {c.name} must be the tempo map / resolution "
                                                   f"handed to build_events_from_data; found {show(kw.get(fps[3]))[:120]}")
-        elif val[0] == "call" and val[1][0] in ("class", "clsparam"):
-            # inlined trivial builder (AnchorEvent)
-            result[c.qual] = c.find_method("from_parsed_data")
-            self.anchor_ctor = (helper, ap, val, elem)
-        else:
-            fail(r, ctx, helper, ap.node, f"appended value for {c.name} is not a builder call: {show(val)[:200]}")
+            if val[0] == "call" and val[1][0] in ("class", "clsparam"):
+                self.anchor_ctor = (helper, ap, val, elem)
+
